@@ -32,7 +32,7 @@ def P(pid, level, text, note, technique, design, **kw):
 
 P("C01", "proof",
   "Every parser function is proved (CBMC code contracts, all inputs, no unwinding bound) to preserve the class invariant, to dereference only the parser object, its state array of exactly max_depth entries and the input buffer of exactly buffer_size bytes, to write only inside its assigns clause (parser fields + state array), and to hand back only spans inside the buffer; init/reset establish the invariant from arbitrary struct contents, including when they reject the buffer. The token loop _advance_parsing is proved with an inductive loop invariant for max_depth in an enumerated set.",
-  "max_depth enumerated for _advance_parsing (quick {1}, thorough {1,2,3}) and for leave_*/get_raw/field_with_length ({1,3} / {1}); assumed libc contracts; field lookups proved memory-safe for any position; see assumptions in the evidence file",
+  "max_depth enumerated for _advance_parsing (quick {1}, thorough {1,2,3}) and for leave_*/get_raw ({1,3}; get_raw in the quick tier only under C11); binson_parser_field_with_length is the one API function whose body is not under an enforced contract (its DFCC run does not finish; its callers use its contract, everything it calls is proved, bounded and pinned lookup runs cover it); assumed libc contracts; see assumptions in the evidence file",
   "CBMC function contracts (DFCC) + loop contracts on the real source", "5/C01")
 P("C02", "model_checking",
   "Local rules proved for all inputs by contract (_parse_integer shortest form, _process_one token grammar incl. length range/fit, reset first/last byte, _cmp_name order); the language-level 'iff' is decided BOUNDED: init+verify agrees with an independent executable recogniser on all byte strings of exactly N bytes (quick N<=7, thorough N<=9), both roots, max_depth 1..3, including the MAX_DEPTH error codes.",
@@ -54,7 +54,7 @@ P("C06", "model_checking",
   "CBMC bounded check of the real parser against a reference cursor, one run per call sequence", "5/C06",
   bounded={"max_bytes_quick": 7, "max_bytes_thorough": 9, "max_calls": 7, "max_depth": 3})
 P("C07", "model_checking",
-  "Mechanisms proved unbounded: _cmp_name is the bytewise three-way compare (relative to the memcmp contract, unsigned bytes, prefix rule), lookups preserve the invariant and latch, _ensure variants set WRONG_TYPE/return true only on matching type, a true lookup means equal name bytes. 'Finds exactly the present names / never loses later fields' is BOUNDED against the reference cursor on all valid objects of N bytes for enumerated lookup sequences.",
+  "Mechanisms proved unbounded: _cmp_name is the bytewise three-way compare (relative to the memcmp contract, unsigned bytes, prefix rule), the lookup wrappers (field, field_ensure*) preserve the invariant and latch against the contract of field_with_length, _ensure variants return true only on matching type, an overshooting lookup rewinds exactly (step contract), a failed next/lookup scan is at the depth it started (E2). 'Finds exactly the present names / never loses later fields' is BOUNDED against the reference cursor on all valid objects of N bytes for enumerated lookup sequences.",
   BOUNDED_NOTE, "contracts on compare/lookup + CBMC bounded check vs reference cursor", "5/C07",
   bounded={"max_bytes_quick": 7, "max_bytes_thorough": 9, "names": "1-2 symbolic bytes"})
 P("C08", "model_checking",
